@@ -273,6 +273,35 @@ def pBase : P String := do
   else if kind == "sector" then pure (okLine #[baseSector FloatFns x y xm ym u v])
   else failure
 
+def pKm : P String := do
+  let zm ← pFloat
+  let z0 ← pFloat
+  let ws ← pFloat
+  let us ← pFloat
+  let L ← pFloat
+  let sv ← pFloat
+  let res ← pFloat
+  let mx ← pFloat
+  let my ← pFloat
+  let wd ← pOptFloat
+  let npts ← pNat
+  let pts ← pArr (2 * npts)
+  pEnd
+  let p := kmPar FloatFns zm z0 ws us L sv
+  let mut xs : Array Float := #[p.m, p.n, p.kappa, p.U, p.r, p.mu, p.Xi, p.A]
+  for k in [0:npts] do
+    xs := xs.push (kmFootprint FloatFns zm z0 ws us L sv res (idx pts (2 * k)) (idx pts (2 * k + 1)) mx my wd)
+  pure (okLine xs)
+
+def pKmz0 : P String := do
+  let zm ← pFloat
+  let ws ← pFloat
+  let us ← pFloat
+  let L ← pFloat
+  pEnd
+  pure (okLine #[kmZ0 FloatFns zm ws us L, kmPhiM FloatFns zm L, kmPhiC FloatFns zm L, kmPsiM FloatFns zm L,
+    kmM FloatFns zm ws us L, kmN zm L])
+
 def dispatch : P String := do
   let op ← tok
   if op == "solve" then pSolve
@@ -286,6 +315,8 @@ def dispatch : P String := do
   else if op == "sa" then pSa
   else if op == "pct" then pPct
   else if op == "base" then pBase
+  else if op == "km" then pKm
+  else if op == "kmz0" then pKmz0
   else failure
 
 def handle (line : String) : String :=
